@@ -44,6 +44,9 @@ inductive Op
   | appReq (k : Kind) (succ err : Bool)    -- application: interface._sendIq(entity, onSuccess?, onError?)
   | libReq (k : Kind)                      -- a library layer issues the request itself (keep-alive ping, key fetch …)
   | deliver (id : Nat) (isResult : Bool)   -- an `iq` of type result / error with this id arrives
+  | reReq (id : Nat) (k : Kind) (succ err : Bool)
+      -- the application re-issues an earlier request under its OLD id (typically from inside the reply
+      -- callback: a retry); allowed only for an id that was handed out before and is not outstanding
 deriving Repr, DecidableEq
 
 inductive Out
@@ -76,6 +79,12 @@ def step (s : St) : Op → St × List Out
     let s1 := { s with next := id }
     let s2 := if k.registers then { s1 with layerReg := s1.layerReg ++ [{ layer := k.owner, id := id, succ := k.succ, err := k.err }] } else s1
     (s2, [.sent id])
+  | .reReq id k succ err =>
+    if id ≤ s.next && !(s.layerReg.any (fun e => e.id == id)) && !(s.appReg.any (fun e => e.id == id)) then
+      let s1 := { s with appReg := s.appReg ++ [{ id := id, succ := succ, err := err }] }
+      let s2 := if k.registers then { s1 with layerReg := s1.layerReg ++ [{ layer := k.owner, id := id, succ := k.succ, err := k.err }] } else s1
+      (s2, [.sent id])
+    else (s, [])
   | .deliver id isResult =>
     match s.layerReg.find? (fun e => e.id == id) with
     | none => (s, [.ordinary id])
